@@ -73,7 +73,10 @@ func VerifC01() {
 			} else {
 				verifrt.Assert(err == ItemNotFoundError, "remove-absent-fails")
 			}
-		case 2: // snapshot save + load into a fresh index
+		case 2: // snapshot save + load into a fresh index (empty snapshots are C08's subject)
+			if ref.count() == 0 {
+				continue
+			}
 			var buf bytes.Buffer
 			if err := idx.Save(&buf, false); err != nil {
 				verifrt.Assert(false, "save-succeeds")
